@@ -497,7 +497,7 @@ class Fn:
         """
         if seen is None:
             seen = set()
-        if depth > 40:
+        if depth > 150:
             return ("unknown",)
         if isinstance(o, dict) and "k" in o:
             if o["k"] == "const":
@@ -533,7 +533,7 @@ class Fn:
     def origin_local(self, l, depth=0, seen=None):
         if seen is None:
             seen = set()
-        if l in seen or depth > 40:
+        if l in seen or depth > 150:
             return ("local", l)
         d = self.single_def(l)
         if d is None:
